@@ -35,6 +35,15 @@ Definition flat_tok (t : tok) : string :=
   end.
 Definition flat (ts : toks) : string := join " " (map flat_tok ts).
 
+(** source text (puncts of one token stay joined): what is fed to the real macro *)
+Definition text_tok (t : tok) : string :=
+  match t with
+  | TP s => s
+  | TLt s => "'" +++ s
+  | _ => flat_tok t
+  end.
+Definition text (ts : toks) : string := join " " (map text_tok ts).
+
 (** ** the template lexer *)
 Fixpoint split_ws_aux (s : string) (cur : string) : list string :=
   match s with
